@@ -440,6 +440,94 @@ def process(run: Run, cases: list[Case], rng, corr: list, stats: dict) -> None:
         stats["searches_compared"] = stats.get("searches_compared", 0) + sum(len(f) for f in c.finds)
 
 
+def deeper_search(run: Run, rng, corr: list, stats: dict) -> None:
+    """failing-input search after a broken obligation / correspondence: the (grammar, program) pairs on which model
+    and implementation disagreed (counters, match lists, exceptions) are re-run on MANY more trees of their grammar
+    (the real generator's), looking for a tree on which the real verdict differs from the documented meaning; when
+    the obligations broke without any disagreement, fresh shadowing / raising programs are tried the same way."""
+    seen, pairs = set(), []
+    for d in corr:
+        if "grammar" in d and "program" in d:
+            key = json.dumps([d["grammar"], d["program"]], sort_keys=True)
+            if key not in seen:
+                seen.add(key)
+                pairs.append((d["grammar"], d["program"]))
+    pairs = pairs[:40]
+    t0 = time.time()
+    cases = []
+    for gtext, prog in pairs:
+        if time.time() - t0 > 120:
+            break
+        try:
+            gram, _ = I.parse_spec(gtext)
+        except Exception:  # noqa: BLE001
+            continue
+        trees, words = [], set()
+        import random as _random
+        st = _random.getstate()
+        _random.seed(rng.getrandbits(32))
+        try:
+            for _ in range(160):
+                try:
+                    t = gram.fuzz("<start>", max_nodes=rng.choice([10, 25, 60]))
+                except Exception:  # noqa: BLE001
+                    break
+                w = str(t)
+                if w not in words and len(w) <= 40:
+                    words.add(w)
+                    trees.append(I.tree_json(t))
+                if len(trees) >= 48:
+                    break
+        finally:
+            _random.setstate(st)
+        for i in range(0, len(trees), 6):
+            cases.append(Case(gtext, prog, trees[i:i + 6], "search:after-disagreement"))
+    # targeted programs: a quantifier that SHADOWS the symbol its range selects, with a body that reads the bound
+    # element, so that the verdict depends on WHICH elements the quantifier ranged over
+    def subvalues(t, acc):
+        if t[0] != "n":
+            return "".join(map(chr, t[1])) if t[0] == "t" else ""
+        v = "".join(subvalues(k, acc) for k in t[4])
+        acc.setdefault(t[1], set()).add(v)
+        return v
+
+    def under(t, top, acc, inside=None):
+        if t[0] != "n":
+            return
+        if inside is not None and t[1] != top:
+            acc.add((inside, t[1]))
+        for k in t[4]:
+            under(k, top, acc, t[1] if inside is None else inside)
+            under(k, top, acc, None) if inside is not None else None
+
+    by_grammar: dict = {}
+    for c in cases:
+        by_grammar.setdefault(c.gtext, []).extend(c.trees)
+    for gtext, trees in list(by_grammar.items())[:12]:
+        vals: dict = {}
+        pairs_yx: set = set()
+        for t in trees:
+            subvalues(t, vals)
+            under(t, t[1], pairs_yx)
+        progs = []
+        for (y, x) in sorted(pairs_yx):
+            for lit in sorted(vals.get(x, ()))[:3]:
+                for q in ("all", "any"):
+                    for sel in ("attr", "desc"):
+                        body = ["cmp", ["s", rng.choice(["==", "!="]), ["str", ["ph", 0]], ["lit", cp(lit)]],
+                                [["rule", x]]]
+                        progs.append([q, rng.random() < 0.5, ["nt", x], ["star", [sel, ["rule", y], ["rule", x]]], body])
+        rng.shuffle(progs)
+        for prog in progs[:24]:
+            for i in range(0, min(len(trees), 24), 6):
+                cases.append(Case(gtext, prog, trees[i:i + 6], "search:shadowing"))
+    run.count("deeper_search_pairs", len(pairs))
+    run.count("deeper_search_cases", len(cases))
+    if cases:
+        sink: list = []
+        process(run, cases, rng, sink, stats)
+
+
 def replay(path: str) -> int:
     use_repo()
     install_counters()
@@ -521,6 +609,8 @@ def main(tier: str) -> int:
     run.coverage["generated_config"] = gen["constants"]
     run.coverage.update(stats)
     run.coverage["cases_per_second"] = round(run.evaluations / max(time.time() - t0, 1e-9), 1)
+    if (not lean.ok or corr) and not run.violations:
+        deeper_search(run, rng, corr, stats)
     if (not lean.ok or corr) and not run.violations:
         what = []
         if not lean.ok:
